@@ -62,7 +62,7 @@ def showPV : PV → String
   | .uns w n => s!"u:{wTag w}:{n}"
   | .arr w xs => s!"a:{wTag w}:{if xs.isEmpty then "-" else showNats "," xs}"
   | .barr bs => s!"ba:{if bs.isEmpty then "-" else showNats "," (bs.map (fun b => if b then 1 else 0))}"
-  | .str v => s!"s:{v}"
+  | .str v => s!"s:{v.replace "\n" "\\n"}"
   | .dtype none => "dt:object"
   | .dtype (some w) => s!"dt:{wTag w}"
   | .pynone => "none"
